@@ -31,6 +31,9 @@ class Poison:
     def __repr__(self):
         return "<POISON>"
 
+    def __deepcopy__(self, memo):
+        return self
+
 
 def is_poison(x):
     return isinstance(x, Poison)
